@@ -96,7 +96,7 @@ for hdr in pre:
                 banner, header, e = s.get_banner()
             want_h = [l.decode() for l in hdr if l.strip()]
             if banner is None or str(banner) != 'SSH-2.0-OpenSSH_9.9 comment here' or header != want_h:
-                fail({'header lines': [l.decode() for l in hdr], 'eol': repr(eol), 'segment': seg, 'then': after}, {'banner': str(banner), 'header': header}, {'banner': 'SSH-2.0-OpenSSH_9.9 comment here', 'header': want_h}, 'header')
+                fail({'header lines': [l.decode() for l in hdr], 'eol': repr(eol), 'segment': seg, 'then': after}, {'banner': str(banner), 'header': header}, {'banner': 'SSH-2.0-OpenSSH_9.9 comment here', 'header': want_h}, 'header' if seg is None else 'header-segmented')
 # product families
 fam = [('OpenSSH_%%s', 'OpenSSH'), ('dropbear_%%s', 'Dropbear SSH'), ('libssh-%%s', 'libssh'), ('libssh_%%s', 'libssh'), ('tinyssh_%%s', 'TinySSH'), ('PuTTY_Release_%%s', 'PuTTY')]
 for tmpl, prod in fam:
